@@ -51,6 +51,9 @@ CHECKS = {
  "C10": ("exploration", "generated documents (page trees with shuffled sparse numbering, generations, shared/cyclic/dangling references, unreachable objects, bookmarks) are renumbered from six kinds of start values; every object carries a unique marker so the renaming is recovered independently of the library's traversal and checked as one bijection over trailer, reachable objects, page order and bookmark targets",
          "trusted: the marker-based recovery of the renaming, the harness's own reachability analysis, CANON",
          "model-based property testing (proptest): graph isomorphism under one recovered bijection"),
+ "C11": ("exploration", "programs of up to 24 editing operations with random arguments are interpreted against lopdf on generated well-formed documents; after every step independent code (own reachability, page-tree walk, reference stripping, effective-resources lookup, marker-based identity through renumbering) checks fresh ids, the frame condition on all previously reachable objects, deletion/prune exactness, Counts, page content and resource monotonicity",
+         "trusted: the interpreter's per-operation expectations (documented effects) and its analyses; CANON",
+         "model-based / stateful property testing (proptest: vec of operations + interpreter, invariants after every step)"),
 }
 NA = {}
 def main():
